@@ -32,6 +32,9 @@ struct Log {
     /// tokens whose destruction the call in progress must not perform (C01): the destructor
     /// records the event and then stops the run by unwinding, before the block is released
     protected: Vec<Id>,
+    /// destructor faults: Some(n) = the n-th destructor run by a collection method from now unwinds
+    drop_fault_in: Option<u32>,
+    drop_faulted: Vec<Id>,
 }
 
 static mut LOG: Option<Log> = None;
@@ -40,7 +43,7 @@ fn log() -> &'static mut Log {
     unsafe {
         if LOG.is_none() {
             let _p = seam::pause();
-            LOG = Some(Log { counts: vec![], events: vec![], ticks: 0, armed: vec![], fired: 0, trace_sites: vec![], record_sites: false, protected: vec![] });
+            LOG = Some(Log { counts: vec![], events: vec![], ticks: 0, armed: vec![], fired: 0, trace_sites: vec![], record_sites: false, protected: vec![], drop_fault_in: None, drop_faulted: vec![] });
         }
         LOG.as_mut().unwrap()
     }
@@ -57,6 +60,8 @@ pub fn begin_run() {
     l.trace_sites.clear();
     l.record_sites = false;
     l.protected.clear();
+    l.drop_fault_in = None;
+    l.drop_faulted.clear();
 }
 
 /// A value whose destruction is observable. Every payload with a destructor carries one.
@@ -79,7 +84,33 @@ impl Drop for Tok {
             l.protected.clear();
             std::panic::panic_any(StopRun);
         }
+        // injected fault: this destructor (it has run: the token is counted) unwinds
+        if ctx == seam::CTX_COLLECT && !std::thread::panicking() {
+            if let Some(n) = l.drop_fault_in {
+                if n <= 1 {
+                    l.drop_fault_in = None;
+                    l.drop_faulted.push(self.0);
+                    l.fired += 1;
+                    std::panic::panic_any(Injected);
+                } else {
+                    l.drop_fault_in = Some(n - 1);
+                }
+            }
+        }
     }
+}
+
+/// The `n`-th destructor of an arena value run by a collection method from now on unwinds.
+pub fn arm_drop_fault(n: u32) {
+    log().drop_fault_in = Some(n.max(1));
+}
+/// Tokens whose destructor unwound since the last call.
+pub fn take_drop_faulted() -> Vec<Id> {
+    let _p = seam::pause();
+    std::mem::take(&mut log().drop_faulted)
+}
+pub fn drop_fault_pending() -> bool {
+    log().drop_fault_in.is_some()
 }
 
 /// Tokens the collection call about to be made must not destruct (sorted).
@@ -152,6 +183,7 @@ pub fn arm_trace_fault(tick: u64, repeat: u32) {
 }
 pub fn disarm_all() {
     log().armed.clear();
+    log().drop_fault_in = None;
 }
 pub fn ticks() -> u64 {
     log().ticks
